@@ -33,7 +33,7 @@ pyidx = slice(*idx) if isinstance(idx, tuple) else idx
 if isinstance(idx, tuple) and idx[2] == 'absent': pyidx = slice(idx[0], idx[1]); idx = (idx[0], idx[1], None)
 try:
   if mode == 'get':
-    r = x[pyidx]; got = ('val', int(r._uint), r.nbits)
+    r = x[pyidx]; got = ('val', int(r._uint), r.nbits) if r is not x else ('aliases the value read',)
   else:
     v = Bits(V[1], V[2]) if isinstance(V, tuple) else V
     x[pyidx] = v; got = ('val', int(x._uint), x.nbits)
@@ -90,6 +90,7 @@ def item_index(it):
     r = out['r']
     # the result's width is `stop - start`: symbolic, pinned by the path condition (the _upper[] lookup concretises it)
     wE = ubv(r._nbits, W)
+    if not out.get('fresh', True): return z3.BoolVal(False)      # a read must not alias the value it was read from
     return z3.And(wd == wE, ubv(r._uint, W) == (z3.LShR(xw, lo_e) & mask), in_range(r._uint, 0, (1 << n) - 1))
 
   def pset(out):
@@ -113,7 +114,9 @@ def item_index(it):
 
   def run():
     x = sp.PB._new_valid_bits(n, sx)
-    if mode == 'get': return {'r': x[mkidx()]}
+    if mode == 'get':
+      r = x[mkidx()]
+      return {'r': r, 'fresh': r is not x}
     v = sv if vk == 'int' else sp.PB._new_valid_bits(m, sv)
     x[mkidx()] = v
     return {'x': x}
